@@ -15,6 +15,9 @@
                      result of upload_bytecode_subsection.
   SHAPE-upgrade      each purpose arm reads its own version counter, installs under saturating_add(v,1),
                      and the state-transition arm requires contains_state_transition_bytecode_root(root).
+  DEPLOY-exact       the default InterpreterStorage::deploy_contract_with_id stores the code under the id and inserts
+                     every slot of the transaction's list as (key, value) — iterating `slots` itself, with no filter,
+                     skip or take in between (the stored state must hash to the state root the id commits to).
 Not decided: byte equality of the concatenation, version arithmetic at u32::MAX.
 """
 import re
@@ -115,6 +118,26 @@ def run(F, rep, tier, allfacts):
         if nviol == 0:
             rep.ok("NO-GUARD-AFTER-MUTATION", short_name)
         rep.sample({"executor": short_name, "mutations": [m[1].rsplit("::", 1)[-1] for m in muts], "guards": sorted(have)})
+
+    # ---- the default deployment writes the code and *every* slot of the list, unfiltered
+    rep.rule("DEPLOY-exact", "deploy_contract_with_id inserts the code under id and iterates all of `slots` (no filter / skip / take) inserting (key, value) of each")
+    dn, df = F.find(r"^fuel_vm::storage::interpreter::InterpreterStorage::deploy_contract_with_id$", ["fuel_vm"], one=True)
+    rep.saw(dn)
+    dwhere = "%s:%s" % (df["file"], df["line"])
+    ci = [[describe(df, a, depth=6) for a in args] for i, c, args, *_ in calls(df) if callee_matches(c, r"InterpreterStorage::storage_contract_insert$")]
+    it = [(callee_name(c).rsplit("::", 1)[-1], [describe(df, a, depth=12) for a in args]) for i, c, args, *_ in calls(df) if callee_matches(c, r"Iterator::(try_for_each|for_each|try_fold|fold)$|IntoIterator>::into_iter$")]
+    okd = ci == [["arg:self", "arg:id", "arg:contract"]] and len(it) == 1 and re.match(r"^(call:into_iter\()?call:iter\(arg:slots\)\)?$", it[0][1][0]) is not None
+    ins = []
+    for cn, cf in F.find(re.escape(dn) + r"::\{closure#\d+\}$", ["fuel_vm"], required=False):
+        for i, c, args, *_ in calls(cf):
+            if callee_matches(c, r"InterpreterStorage::contract_state_insert$"):
+                ins.append([describe(cf, a, depth=8) for a in args])
+    for i, c, args, *_ in calls(df):
+        if callee_matches(c, r"InterpreterStorage::contract_state_insert$"):
+            ins.append([describe(df, a, depth=8) for a in args])
+    okd = okd and len(ins) == 1 and re.search(r"call:key\(", ins[0][2]) is not None and re.search(r"call:value\(", ins[0][3]) is not None
+    rep.check(okd, "DEPLOY-exact", "deploy_contract_with_id", dwhere,
+              "deployment must store the code and every (key, value) of the slot list as given; code insert %s, iteration %s, slot inserts %s" % (ci, it, ins))
 
     # ---- deploy
     n, f = inner["deploy_inner"]
